@@ -231,7 +231,14 @@ func (w *World) curScope(g int64) int {
 }
 
 func (w *World) newEntry(r *Reg, out int, impl int, inv *Inv) (*Entry, reflect.Value) {
-	obj := reflect.New(ConcreteTypes[impl].Elem())
+	var obj reflect.Value
+	if ct := ConcreteTypes[impl]; ct.Kind() == reflect.Pointer {
+		obj = reflect.New(ct.Elem())
+	} else {
+		// a value type: struct{ B *Base; ... }
+		obj = reflect.New(ct).Elem()
+		obj.Field(0).Set(reflect.ValueOf(&Base{}))
+	}
 	e := &Entry{W: w, Reg: r.ID, Out: out, Impl: impl, Inv: inv}
 	if inv != nil {
 		e.ScopeTag = inv.ScopeTag
